@@ -179,7 +179,10 @@ def execute(case, scratch):
         nontrivial = bool(removed or pr.get("directory_not_root") or pr.get("relative_directory")
                           or pr.get("dotdot_in_file") or pr["cwd_not_root"])
         return {"verdict": "ok", "stats": stats, "nontrivial": nontrivial,
-                "obs_digest": core.jdigest([obs["attr"], obs["setmap"], sorted(obs["events"]), obs["db"]])}
+                # (the passes of a multi-pass compiler come out of a set: their order follows the interpreter's hash
+                # seed and is no result; the digest takes the loaded configuration as a multiset)
+                "obs_digest": core.jdigest([obs["attr"], obs["setmap"], sorted(obs["events"]),
+                                            sorted(json.dumps(x, sort_keys=True) for x in obs["db"])])}
     finally:
         W.cleanup(top)
 
